@@ -224,6 +224,11 @@ for name, inst, tags, tier in [
     ("scope_checkpoint_up1_b1", "checkpoint() + reset_to()", ["b1"], "thorough"),
     ("scope_checkpoint_down4_b1", "checkpoint() + reset_to(), down, MIN_ALIGN 4", ["b1"], "thorough"),
     ("scope_aligned_up1_b1", "scoped_aligned::<8>()", ["b1"], "thorough"),
+    ("scope_unallocated_scoped_stateful_up1", "scoped() entered on an UNALLOCATED arena (first chunk created inside), stateful allocator, up: rewinds to the start of the first chunk", [], "quick"),
+    ("scope_unallocated_scoped_va_down1", "scoped() entered on an unallocated arena, down", [], "thorough"),
+    ("scope_unallocated_guard_va_up1", "scope_guard() + drop on an unallocated arena, up", [], "thorough"),
+    ("scope_unallocated_reset_to_start_over_up1", "reset_to_start() after the first chunk was created, over-aligned allocator (64-byte header), up", [], "thorough"),
+    ("scope_unallocated_reset_stateful_up4", "reset() after the first chunk was created, stateful allocator, up, MIN_ALIGN 4", [], "thorough"),
     ("scope_aligned_down1_b0", "scoped_aligned::<8>(), down, inside the first chunk", ["fail"], "quick"),
     ("scope_try_with_mut_spill_up1", "try_alloc_try_with_mut returning Err/Ok, Result slot spills into chunk 2", ["b1"], "quick"),
     ("scope_try_with_mut_spill_down1", "same, down", ["b1"], "thorough"),
@@ -242,6 +247,7 @@ for name, inst, tags, tier in [
     ("release_drop_up1_c3", "drop, up, <= 3 chunks", ["c1", "c2", "c3", "several"], "thorough"),
     ("release_reset_up1_c3", "reset() then drop, up, <= 3 chunks", ["c1", "c2", "c3"], "thorough"),
     ("release_reset_to_start_up1_c2", "reset_to_start() then drop", ["c1", "c2", "several"], "quick"),
+    ("release_reset_to_start_up1_c3", "reset_to_start() then drop, <= 3 chunks (the current chunk has two successors when the arena is dropped)", ["c1", "c2", "c3", "several"], "thorough"),
     ("release_scope_up1_c2", "scope exit then drop", ["c1", "c2", "several"], "thorough"),
     ("release_raw_up1_c2", "into_raw / from_raw then drop", ["c1", "c2", "several"], "thorough"),
     ("release_drop_down1_c2", "drop, down, <= 2 chunks", ["c2", "several"], "quick"),
@@ -276,11 +282,21 @@ for name, inst, tags, tier in [
     ("stats_followup_va_up1_b0", "identities after scope exit / reset_to_start / reset / deallocate", ["fits", "b0"], "quick"),
     ("stats_followup_va_down4_b0", "same, down, MIN_ALIGN 4", ["fits", "b0"], "thorough"),
     ("stats_followup_va_up1_b1", "same with two chunks (reset keeps one)", ["b1"], "thorough"),
+    ("stats_any_followup_va_up1_b1", "type-erased == typed after scope exit / reset_to_start / deallocate with two chunks (the newer chunk keeps a stale position)", ["b1", "stale"], "quick"),
+    ("stats_any_followup_stateful_down1_b1", "same, stateful allocator, down", ["b1", "stale"], "thorough"),
+    ("stats_any_followup_va_down4_b0", "same on one chunk, down, MIN_ALIGN 4", ["fits", "b0"], "thorough"),
     ("stats_claimed_va_up1_b0", "claimed arena reports zeros (typed and type-erased); the guard is coherent", ["fits", "b0"], "quick"),
     ("stats_claimed_stateful_down1_b1", "same, stateful allocator, down", ["b1"], "thorough"),
     ("stats_unallocated_zero", "unallocated arena reports zeros", [], "quick"),
 ]:
     A("stats", name, ["C10"], inst, tags=tags, tier=tier, mem_gb=10, timeout_s=2400, bounds=C10B)
+
+# ZST vectors: capacity-overflow clause of C07 (and the ZST capacity clause of C08); no allocation, no loops
+for name, inst in [
+    ("zst_bumpvec_reserve_family", "BumpVec<()>: try_reserve / try_reserve_exact / try_extend_from_slice_copy / try_extend_from_within_copy / try_push"),
+    ("zst_mutbumpvec_reserve_family", "MutBumpVec<()>: same"),
+]:
+    A("zst", name, ["C07", "C08"], inst, tier="quick", mem_gb=2, timeout_s=600, bounds="ZST element type; every len and every additional in usize (set_len on a ZST vector); one operation")
 
 # C18 alignment
 C18B = "new (outer MIN_ALIGN M), filler L(<=5,<=4), aligned::<N> with two allocations L(<=8,<=8) (with budget the first is the concrete L(20,4) => chunk switch while N is in force), allocation after; unwind 6"
@@ -335,6 +351,15 @@ for name, inst, tier in [
     ("fail_vec_down", "same, down", "thorough"),
 ]:
     A("fail", name, ["C07"], inst, tier=tier, mem_gb=6, bounds="<= 3 base-allocator calls, concrete refusal schedule (budget 0 at the failing call); sizes symbolic; unwind 6")
+F2B = "new, scoped { L(24,1) => chunk 2 (112 B) retained behind chunk 1 }, filler / 2 pushes, ONE request of 200 B that fits in no chunk under refusal (budget 0), follow-up; chunks = 2; unwind 6"
+for name, props, inst, tier in [
+    ("fail_retained_alloc_up1", ["C07"], "allocate that walks over a retained chunk and is then refused: arena exactly where it was", "quick"),
+    ("fail_retained_grow_up1", ["C07"], "grow of the newest block, same", "thorough"),
+    ("fail_retained_alloc_down4", ["C07"], "allocate, down, MIN_ALIGN 4", "thorough"),
+    ("fail_retained_mutvec_up1", ["C07", "C15"], "MutBumpVec: failed try_reserve keeps length/contents/buffer; into_boxed_slice afterwards leaves a coherent arena", "quick"),
+    ("fail_retained_mutvecrev_down1", ["C07", "C15"], "MutBumpVecRev, down: same", "thorough"),
+]:
+    A("fail2", name, props, inst, tier=tier, mem_gb=12, timeout_s=2400, bounds=F2B)
 H("kani-arena", "fail::panic_alloc_refused", ["C07"], kind="must_panic", expect_fail=[r"handle_alloc_error"], stubbing=True, inst="alloc / reserve / alloc_uninit_slice under refusal end in handle_alloc_error", unwind=6, timeout_s=900, mem_gb=4, note=AR_STUBS, bounds="1 chunk")
 H("kani-arena", "fail::panic_capacity_overflow", ["C07"], kind="must_panic", expect_fail=[r"capacity_overflow"], stubbing=True, inst="alloc_uninit_slice::<u64>(n), any overflowing n", unwind=6, timeout_s=900, mem_gb=4, note=AR_STUBS, bounds="1 chunk")
 
